@@ -608,8 +608,14 @@ func (s *Translator) relationshipEndpointFunctionArgument(argument pgsql.Express
 		return argument
 	}
 
-	if binding, bound := s.scope.Lookup(identifier); bound && bindingExpressionType(binding) == pgsql.EdgeComposite {
-		return edgeCompositeValue(identifier)
+	// The argument has been translated already: if it names a binding, that binding decides. Only an identifier that
+	// is not a binding may still be a user symbol.
+	if binding, bound := s.scope.Lookup(identifier); bound {
+		if bindingExpressionType(binding) == pgsql.EdgeComposite {
+			return edgeCompositeValue(identifier)
+		}
+
+		return argument
 	}
 
 	if binding, bound := s.scope.AliasedLookup(identifier); bound && bindingExpressionType(binding) == pgsql.EdgeComposite {
